@@ -33,7 +33,7 @@ ASSUMPTIONS = [
     "payload space is the planted namespace listed in bounds; names resolving to other kinds of object are not distinguished by the code",
 ]
 TRUSTED = ["pydantic validate_call / model validation (executed)", "vt.sym explorer", "trap namespace in this file"]
-BOUNDS = {"module names": 7, "type names": 15, "nesting depth": "<= 3 (top, cause, context, cause-of-cause)", "loads per run": "<= 2"}
+BOUNDS = {"module names": 7, "type names": 15, "nesting depth": "<= 2 quick; <= 4 thorough (all cause/context paths of length 2, cause^3)", "loads per run": "<= 2"}
 REQUIRED_COVERS = ["security_error", "exception_instance", "synthetic_class", "nested", "repeated", "via_result", "via_function", "constructor_fallback"]
 
 CALLS: List[Any] = []
@@ -119,7 +119,7 @@ ARGS: List[Tuple[Any, ...]] = [(), ("a",), ("x", 1)]
 def cases(tier: str) -> List[Any]:
     out = []
     for mi in range(len(MODULES)):
-        for nest in ("top", "cause", "context", "cause.cause") if tier == "thorough" else ("top", "cause", "context"):
+        for nest in ("top", "cause", "context", "cause.cause", "context.cause", "cause.context", "cause.cause.cause") if tier == "thorough" else ("top", "cause", "context"):
             out.append({"module": mi, "nest": nest})
     return out
 
